@@ -645,7 +645,7 @@ class NutsRun:
 def gen_case(r, tier):
     iface = r.choice(["exp", "exp", "legacy"])
     dim = r.randint(1, 3)
-    tgt = {"kind": r.choice(zoo.DENSITY_KINDS + ["post", "post_const", "post_deconv"]), "dim": dim, "zseed": r.randrange(1, 10 ** 6)}
+    tgt = {"kind": r.choice(zoo.DENSITY_KINDS + ["post", "post_const", "post_deconv", "post_fd", "post_udl"]), "dim": dim, "zseed": r.randrange(1, 10 ** 6)}
     ip = [round(r.uniform(-1, 1), 3) for _ in range(dim)]
     sc = {"iface": iface, "kind": "NUTS", "target": tgt, "knobs": {}}
     maxd = r.choice([0, 1, 2, 3, 4, 5])
